@@ -271,10 +271,51 @@ struct Canary {
 int run_canaries(const std::string &prop) {
   int failed = 0, total = 0;
   auto expect_cls = [&](const char *name, const Plan &p, const char *cls) {
-    long sab0 = stats().sabotage_applied;
-    RunResult r = run_plan(p, RunOptions());
+    // every canary in a process of its own: a canary that ends in a crash inside the library must not leave the next
+    // one a library in mid-call (a tree may hold a lock or a flag across the call)
+    RunResult r;
+    long sab_delta = 0;
+    {
+      int fds[2];
+      if (pipe(fds) != 0) return;
+      fflush(real_out());
+      pid_t pid = fork();
+      if (pid == 0) {
+        close(fds[0]);
+        g_report_fd = fds[1];
+        alarm(120);
+        long sab0 = stats().sabotage_applied;
+        RunResult rr = run_plan(p, RunOptions());
+        std::string line = std::string("R ") + (rr.v.violated ? "1" : "0") + " " + std::to_string(stats().sabotage_applied - sab0) + " " +
+                           (rr.v.cls.empty() ? "-" : rr.v.cls) + " " + Json::Str(rr.v.detail).dump() + "\n";
+        if (write(fds[1], line.data(), line.size()) < 0) {}
+        _exit(0);
+      }
+      close(fds[1]);
+      std::string buf;
+      char tmp[4096];
+      ssize_t n;
+      while ((n = read(fds[0], tmp, sizeof tmp)) > 0) buf.append(tmp, (size_t)n);
+      close(fds[0]);
+      int st = 0;
+      waitpid(pid, &st, 0);
+      size_t at = buf.rfind("R ");
+      char cls[64] = {0};
+      int viol = 0, consumed = 0;
+      if (at != std::string::npos && sscanf(buf.c_str() + at, "R %d %ld %63s %n", &viol, &sab_delta, cls, &consumed) >= 3) {
+        r.v.violated = viol != 0;
+        r.v.cls = strcmp(cls, "-") ? cls : "";
+        Json dj;
+        if (consumed > 0 && Json::parse(buf.substr(at + (size_t)consumed), dj)) r.v.detail = dj.s;
+      } else {
+        // the child died of a sanitizer report (or a signal): that is how the sanitizer class shows
+        r.v.violated = true;
+        r.v.cls = buf.find("D ") != std::string::npos || (WIFEXITED(st) && WEXITSTATUS(st) == 77) ? "sanitizer" : "crash";
+        r.v.detail = "the process running the canary died";
+      }
+    }
     // a canary whose sin needs a particular OS call (a moving mremap) is not applicable to a tree that never makes that call
-    if (std::string(name) == "stale_mremap_address" && stats().sabotage_applied == sab0) {
+    if (std::string(name) == "stale_mremap_address" && sab_delta == 0) {
       fprintf(real_out(), "CANARY-SKIPPED %s: the library made no mremap call that may move the mapping\n", name);
       return;
     }
